@@ -511,32 +511,19 @@ def minimal_failures(failed):
 
 
 def signatures(failed):
-    """One signature per (object, clause, group) where group is 'depth<=2' (both tiers), 'depth3'
-    or 'lazy' (thorough only).  The witness spells out the SET of minimal failing histories, so any
-    change of that set is a different signature; the history replays every member."""
+    """One signature per (object, clause, last call): the witness is the SHORTEST failing history
+    ending with that call (ties: alphabetical) and the oracles it breaks; the other minimal
+    histories with the same last call are listed in the detail only."""
     groups = {}
     for name, letters, lazy, clause, tags, detail in minimal_failures(failed):
-        grp = "lazily-loaded-workspace" if lazy else ("depth<=2" if len(letters) <= 2 else "depth3")
-        groups.setdefault((name, clause, grp), []).append((letters, tags, detail))
+        groups.setdefault((name, clause, letters[-1]), []).append((lazy, letters, tags, detail))
     out = []
-    for (name, clause, grp), members in sorted(groups.items()):
-        alphabet = set(OBJECTS[name].letters)
-        by_last = {}
-        for letters, tags, _ in members:
-            by_last.setdefault((letters[-1], tuple(tags), len(letters)), []).append(letters)
-        parts = []
-        for (last, tags, n), hs in sorted(by_last.items()):
-            t = "+".join(tags)
-            if n == 2 and {h[0] for h in hs} == alphabet:
-                parts.append(f"* > {last} [{t}]")
-            else:
-                parts += [f"{' > '.join(h)} [{t}]" for h in sorted(hs)]
-        witness = f"{name}|{grp}|" + "; ".join(parts)
-        hist = {"part": "B", "obj": name, "group": grp, "clause": clause,
-                "histories": [{"letters": m[0], "lazy": grp.startswith("lazily")} for m in sorted(members, key=lambda m: m[0])],
-                "predecessors_of": sorted({m[0][-1] for m in members if len(m[0]) == 2})}
-        first = min(members, key=lambda m: (len(m[0]), m[0]))
-        out.append((clause, witness, hist, {"first": first[0], "oracles": first[2], "minimal_failing_histories": len(members)}))
+    for (name, clause, _), members in sorted(groups.items()):
+        lazy, letters, tags, detail = min(members, key=lambda m: (m[0], len(m[1]), m[1]))
+        witness = f"{name}|{' > '.join(letters)} [{'+'.join(tags)}]" + ("|lazily-loaded-workspace" if lazy else "")
+        hist = {"part": "B", "obj": name, "clause": clause, "histories": [{"letters": letters, "lazy": lazy}]}
+        out.append((clause, witness, hist, {"oracles": detail, "minimal_failing_histories_with_this_last_call":
+                                            [" > ".join(m[1]) for m in sorted(members, key=lambda m: (m[0], len(m[1]), m[1]))]}))
     return out
 
 
@@ -580,9 +567,6 @@ def replay(h):
         for n in range(1, len(letters) + 1):
             for sub in itertools.combinations(range(len(letters)), n):
                 todo.add((tuple(letters[i] for i in sub), m["lazy"]))
-    for last in h.get("predecessors_of", []):
-        for a in OBJECTS[name].letters:
-            todo.add(((a, last), h["group"].startswith("lazily")))
     failed = []
     fixes = {}
     for letters, lazy in sorted(todo):
@@ -592,4 +576,4 @@ def replay(h):
             fix = fixes.setdefault("f", None) or fixes.__setitem__("f", F.Fix()) or fixes["f"]
         fails, _ = execute(name, list(letters), fix)
         failed += [(name, list(letters), lazy, c, t, d) for c, t, d in fails]
-    return [(c, w, d) for c, w, hh, d in signatures(failed) if hh["group"] == h["group"]]
+    return [(c, w, d) for c, w, _, d in signatures(failed)]
